@@ -58,7 +58,7 @@ def oracle(case, rec, res, base, K):
     if res.deadlock is not None:
         raise Violation(f"C16:deadlock:{view.deadlock_kind()}", f"plan {res.plan}\npending tasks at quiescence:\n{res.deadlock}\nlog tail: {res.run.events[-12:]}")
     if res.raised is not None:
-        raise Violation("C16:" + view.raised_kind() + (":loop" if res.shape.kind == "loop" else ""), f"{res.raised}: {res.raised_msg}; plan {res.plan}; versions {res.versions}; limit {res.max_retries}")
+        raise Violation("C16:" + ("raised:loop-recovery" if res.shape.kind == "loop" else view.raised_kind()), f"{res.raised}: {res.raised_msg}; plan {res.plan}; versions {res.versions}; limit {res.max_retries}")
     if res.output_tokens != base["tokens"]:
         raise Violation("C16:output-token-count", f"{res.output_tokens} output tokens, failure-free run has {base['tokens']}")
     if res.output != base["output"] or res.output != ref:
